@@ -556,7 +556,7 @@ type frameFacts struct {
 
 func (p *Program) frameFactsOf(fn *ssa.Function, put bool) frameFacts {
 	var ff frameFacts
-	eachInstr(fn, func(in ssa.Instruction) {
+	p.eachInstrRegion(fn, func(_ *ssa.Function, in ssa.Instruction) {
 		switch x := in.(type) {
 		case ssa.CallInstruction:
 			n := calleeName(x)
@@ -628,7 +628,7 @@ func ruleFrameAgree(r *Run) {
 		fmt.Sprintf("frame header length is not 5 on both sides (writer %v, reader %v)", fs.hdrLens, fr.hdrLens))
 	// compressed flag: writer stores constants 0/1 at index 0; reader compares index 0 with 1
 	wflag, rflag := false, false
-	eachInstr(send, func(in ssa.Instruction) {
+	p.eachInstrRegion(send, func(_ *ssa.Function, in ssa.Instruction) {
 		st, ok := in.(*ssa.Store)
 		if !ok {
 			return
@@ -641,7 +641,7 @@ func ruleFrameAgree(r *Run) {
 			}
 		}
 	})
-	eachInstr(recv, func(in ssa.Instruction) {
+	p.eachInstrRegion(recv, func(_ *ssa.Function, in ssa.Instruction) {
 		bo, ok := in.(*ssa.BinOp)
 		if !ok || bo.Op != token.EQL {
 			return
